@@ -81,6 +81,8 @@ def analyse(repo):
     # ---- _validate_n_sensors, and the part of fit in front of the optimizer call
     v = {"site": "validate", "function": "pysensors/reconstruction/_sspor.py::SSPOR._validate_n_sensors", "found": False,
          "theorems": ["life_validate_is_spec", "life_validate_denotes"]}
+    sn = {"site": "setN", "function": "pysensors/reconstruction/_sspor.py::SSPOR.set_number_of_sensors (and its alias set_n_sensors)", "found": False,
+          "theorems": ["life_setN_is_spec", "life_setN_denotes"]}
     h = {"site": "fitHead", "function": "pysensors/reconstruction/_sspor.py::SSPOR.fit (up to the optimizer call)", "found": False,
          "theorems": ["life_fitHead_is_spec"]}
     try:
@@ -105,6 +107,21 @@ def analyse(repo):
         except Untranslatable as e:
             v["why"] = str(e)[:400]
         try:
+            fn = fns.get("set_number_of_sensors")
+            if fn is None or [a.arg for a in fn.args.args] != ["self", "n_sensors"] or fn.decorator_list:
+                raise Untranslatable("SSPOR.set_number_of_sensors(self, n_sensors) not found")
+            al = fns.get("set_n_sensors")
+            if al is None or [a.arg for a in al.args.args] != ["self", "n_sensors"] or al.decorator_list \
+                    or [ast.unparse(x) for x in body_of(al)] != ["self.set_number_of_sensors(n_sensors)"]:
+                raise Untranslatable("SSPOR.set_n_sensors is not the plain alias `self.set_number_of_sensors(n_sensors)`")
+            sn["lean"] = (f"def setNProg : LTree :=\n  {block(body_of(fn))}\n"
+                          "theorem life_setN_is_spec : setNProg = LTree.setNSpec := by rfl\n"
+                          "theorem life_setN_denotes (st : Sspor) (a : UpdArgs) : setNProg.eval st a = some (st.setN a.v) := by\n"
+                          "  rw [life_setN_is_spec]; exact setNSpec_denotes st a\n")
+            sn["found"] = True
+        except Untranslatable as e:
+            sn["why"] = str(e)[:400]
+        try:
             fn = fns.get("fit")
             if fn is None or fn.decorator_list:
                 raise Untranslatable("SSPOR.fit not found")
@@ -118,8 +135,8 @@ def analyse(repo):
         except Untranslatable as e:
             h["why"] = str(e)[:400]
     except (OSError, SyntaxError) as e:
-        v["why"] = h["why"] = str(e)[:200]
-    return sites + [v, h]
+        v["why"] = h["why"] = sn["why"] = str(e)[:200]
+    return sites + [v, sn, h]
 
 
 def emit(sites, out_path):
